@@ -84,6 +84,10 @@ fn gen_program(rng: &mut Rng, family: u8) -> Option<Prog> {
             b.emit(&[0x1C]); // POPF
         }
     }
+    if rng.chance(1, 4) {
+        // a routine that re-enables interrupts right before it returns
+        b.emit(&[0x08]); // EI
+    }
     b.emit(&[0x2C]); // RETI
     b.place(main);
     b.ldsp_imm(prog::STACK_TOP);
